@@ -29,3 +29,5 @@ mod c22_balances;
 mod c45_glv;
 #[cfg(kani)]
 mod c18_roles;
+#[cfg(kani)]
+mod c30_rank;
